@@ -31,6 +31,11 @@ CHECKS.update(
     C11=dict(text=ARR + "z3-term snapshots of every caller-owned array and of every cached/memoised callback result compared after each entry point (3 evaluation rounds incl. a cache hit, transform/restore, start iterate); values returned on cache hits still equal the reference transformation. scipy share/copy table measured on the installed scipy at every run.", note="Aliasing model of numpy/scipy (measured table in evidence) trusted; policies: cached constant J/H, memoised per point; n=m=1 quick, n,m<=2 thorough; a whole solve's iteration machinery is outside this check.", ref="DESIGN.md §6 C11"),
 )
 
+CHECKS.update(
+    C13=dict(text="Symbolic execution of the real Iterate / ActiveSet / ImplicitFunc / ScaledImplicitFunc / keep_rows code at arbitrary points (inside, on, outside the bounds), multipliers, rho>0, dt>0 and arbitrary symbolic active sets; every public quantity proved equal (z3 nlsat) to the dense mathematical definition written from the statement, incl. the Hessian multiplier y+rho*c through a multiplier-linear Hessian model. n<=2, m<=1 (thorough m<=2), COO/CSR/CSC.", note="Exact polynomial real arithmetic (rounding outside); user functions are fresh symbols per distinct evaluation point; bounds n<=2, m<=2; numpy/scipy model trusted, cross-checked by concrete replay.", ref="DESIGN.md §6 C13"),
+    C20=dict(text="Symbolic execution of the real scale.py (weights_from_nominal_values, from_nominal_values, from_grad_jac, scale_symmetric, from_equilibrated_kkt, create_scaling dispatch) on an exponent model of frexp/ldexp incl. numpy's truncating float->int stores; the [1,2) / [1,4) normalisation ranges and integrality of the weights proved by z3 for all magnitudes in the stated window; equilibration loop unwound 3 (thorough 4).", note="Exact reals inside the exponent window (magnitudes 0 or in [2^-W0,2^W0]); frexp arguments assumed inside the window (counted); loop iterations beyond the unwinding are reported as aborted paths, not as success; one listed known finding (columns with sum < 1e-10).", ref="DESIGN.md §6 C20"),
+)
+
 NOT_APPLICABLE = {
     "C03": "liveness/convergence of hundreds of floating-point Newton iterations with data-dependent trip count: no bounded symbolic encoding can decide it (DESIGN.md §7)",
 }
